@@ -69,6 +69,9 @@ def is_log_call(n):
     return isinstance(n.func, ast.Attribute) and n.func.attr in LOG_METHODS and ast.unparse(n.func.value) in LOG_OBJECTS
 
 
+EXC_SITES = set()
+
+
 def log_entries(site, nodes, where, allowed_calls, fmt_re, server_names=()):
     """the log calls among [nodes] (statements of handler bodies) as (site, const?, directives, args); every other call
     must be in allowed_calls (fail closed: a handler that does something the model does not know is a shape error)"""
@@ -83,6 +86,9 @@ def log_entries(site, nodes, where, allowed_calls, fmt_re, server_names=()):
                 continue
             need(n.args and not n.keywords and not any(isinstance(a, ast.Starred) for a in n.args),
                  '%s: log call with no template / keywords / *args: %s' % (where, ast.unparse(n)))
+            # which handlers run Logger.exception (and with it utils.python.collect_extra_debug_data)
+            if ast.unparse(n.func) == 'logging_function' or n.func.attr == 'exception':
+                EXC_SITES.add(site)
             tmpl, rest = n.args[0], n.args[1:]
             consuming = lambda s: sum(1 for m in fmt_re.finditer(s) if m.group(1) != '%')
             if isinstance(tmpl, ast.Constant) and isinstance(tmpl.value, str):
@@ -349,6 +355,7 @@ def gen_T07():
     need(len(lex) == 1, 'log.firewall: logException not found')
     hb_calls = [ast.unparse(n.func) for st in hb for n in ast.walk(st) if isinstance(n, ast.Call)]
     need(set(hb_calls) <= {'logException', 'errorHandler'}, 'log.firewall.m: handler calls changed: %r' % hb_calls)
+    EXC_SITES.clear()
     logs = []
     logs += log_entries(0, guard_bodies['PARSE'], '_read guard around parseMsg', (), fmt_re, server_names=('line',))
     logs += log_entries(6, guard_bodies['FEED'], '_read guard around feedMsg', (), fmt_re)
@@ -362,6 +369,46 @@ def gen_T07():
     if run_bodies:
         need(is_log_call(run_bodies[0].value) if isinstance(run_bodies[0], ast.Expr) else False,
              'drivers.run: the handler no longer starts with its log call')
+    # ---- Logger.exception -> utils.python.collect_extra_debug_data(): runs inside every handler that logs with .exception ----
+    lex2 = find_def(tl, 'exception', 'Logger')
+    need("self.debug('%s', utils.python.collect_extra_debug_data())" in ast.unparse(lex2),
+         'log.Logger.exception no longer calls utils.python.collect_extra_debug_data() as an argument of self.debug')
+    need(not any(isinstance(n, ast.Try) for n in ast.walk(lex2)), 'log.Logger.exception now contains a try')
+    lgx = norm(lex[0].body)
+    need('logging_function = self.log.exception' in lgx and 'logging_function = exception' in lgx,
+         'log.firewall.logException no longer logs with .exception')
+    tp = tree('src/utils/python.py')
+    cd = find_def(tp, 'collect_extra_debug_data')
+
+    def foreign_calls(fname):
+        return [n for n in ast.walk(cd) if isinstance(n, ast.Call) and ast.unparse(n.func) == fname]
+
+    def guard_of(node, where):
+        ch = enclosing_tries(cd, lambda n: n is node)
+        need(len(ch) == 1, 'collect_extra_debug_data: %s not found once' % where)
+        out = []
+        for tnode in ch[0]:
+            for h in tnode.handlers:
+                need(not any(isinstance(x, ast.Raise) for x in ast.walk(h)), 'collect_extra_debug_data: a handler re-raises')
+                out += classes(h, 'collect_extra_debug_data ' + where)
+        return out
+    gets = foreign_calls('getattr')
+    need(len(gets) == 1 and ast.unparse(gets[0].args[0]) == 'frame_locals[inspected]' and ast.unparse(gets[0].args[1]) == 'attr_name',
+         'collect_extra_debug_data: expected exactly one getattr(frame_locals[inspected], attr_name[, default])')
+    helper_catches = guard_of(gets[0], 'getattr')
+    if len(gets[0].args) == 3:
+        helper_catches = helper_catches + ['(CExn AttributeError)']       # getattr's default covers AttributeError only
+    else:
+        need(len(gets[0].args) == 2 and not gets[0].keywords, 'collect_extra_debug_data: getattr call shape')
+    need(helper_catches, 'collect_extra_debug_data: getattr on a foreign object under no guard at all')
+    for fname, arg in (('dir', 'frame_locals[inspected]'), ('repr', 'value')):
+        cs = foreign_calls(fname)
+        need(len(cs) == 1 and ast.unparse(cs[0].args[0]) == arg, 'collect_extra_debug_data: expected one %s(%s)' % (fname, arg))
+        need('CException' in guard_of(cs[0], fname) or 'CBare' in guard_of(cs[0], fname),
+             'collect_extra_debug_data: %s(%s) on a foreign object is not under `except Exception`' % (fname, arg))
+    others = {ast.unparse(n.func) for n in ast.walk(cd) if isinstance(n, ast.Call)} - {'getattr', 'dir', 'repr', 'list', 'sys.exc_info',
+              'stack.append', 'frame_locals.items'}
+    need(not others, 'collect_extra_debug_data: calls the model does not know: %s' % sorted(others))
     digits = [c for c in range(0x110000) if chr(c).isdecimal()]
     need(all(_re.match(r'\d', chr(c)) for c in digits[:50]), 're \\d / isdecimal mismatch')
     # ---- CPython facts: str.strip() whitespace, capitalize() of the command ----
@@ -389,6 +436,8 @@ def gen_T07():
     out += 'Definition CALLBACK_FIREWALLED : list (list N * bool) :=\n  %s.\n' % clist(
         '(%s, %s)' % (cstr(n), cbool(h)) for n, h, _ in cb_fw)
     out += 'Definition NICK_SETTERS : list (list N) :=\n  %s.\n' % clist(cstr(x) for x in sorted(ns))
+    out += 'Definition HELPER_GETATTR_CATCHES : list cls := %s.\n' % clist(helper_catches)
+    out += 'Definition EXCEPTION_SITES : list N := %s.\n' % clist('%d' % s for s in sorted(EXC_SITES))
     out += 'Definition ISCHANNEL_NONE_SAFE : bool := %s.\n' % cbool(none_safe)
     out += 'Definition HANDLER_LOGS : list (N * (bool * (N * N))) :=\n  %s.\n' % clist(
         '(%d, (%s, (%d, %d)))' % (s, cbool(c), nd, na) for s, c, nd, na in logs)
